@@ -148,7 +148,7 @@ def depth_guard(rep: C.Report) -> None:
         if not enc.probes:
             ob.verdict, ob.detail = C.NOT_ENCODABLE, "no recursive call site found"
             return
-        if not bad and limits:
+        if not bad and limits and not C.distrust():
             ob.verdict = C.DISCHARGED
             return
         # replay: a chain of distinct templates deeper than any sane limit must produce the in-band error, not an exception
@@ -212,7 +212,7 @@ def loop_check_order(rep: C.Report) -> None:
                 ob.samples.append({"probe": f"{pr.label} at core.py:{pr.line}", "query": "reachable with the loop test not yet executed", "result": "unsat"})
             else:
                 bad.append(pr.line)
-        if not bad:
+        if not bad and not C.distrust():
             ob.verdict = C.DISCHARGED
             return
         sig, reproduced, what = replay_arg_cycle()
@@ -355,7 +355,7 @@ def namespace_index(rep: C.Report) -> None:
         if not ob.functions:
             ob.verdict, ob.detail = C.NOT_ENCODABLE, "talkpagename_fn / talkspace_fn not found"
             return
-        if not unguarded:
+        if not unguarded and not C.distrust():
             ob.verdict = C.DISCHARGED
             return
         # z3 over the shipped key sets: exists prefix p in keys with p + " talk" not in keys
@@ -551,7 +551,7 @@ def expr_totality(rep: C.Report, quick: bool) -> None:
     missing = [e.__name__ for e in need if not _covers(classes, e)]
     rep.extra["expr_barrier_classes"] = sorted(classes)
     rep.extra["expr_uncovered_statements"] = uncovered
-    if not uncovered and not missing:
+    if not uncovered and not missing and not C.distrust():
         ob.verdict = C.DISCHARGED
         ob.confirmed_conditions = 1
         ob.samples.append({"barrier_classes": sorted(classes), "uncovered_statements": []})
@@ -672,7 +672,7 @@ def int_conversions(rep: C.Report) -> None:
         ob.confirmed_conditions = len(sites) - len(unguarded)
         ob.queries = ob.paths = len(sites)
         ob.samples.append({"int_of_text_sites": len(sites), "unguarded": [f"{m}:{ln} int({a})" for m, ln, a, _ in unguarded]})
-        if not unguarded:
+        if not unguarded and not C.distrust():
             ob.verdict = C.DISCHARGED
             return
         # replay
